@@ -15,7 +15,27 @@ def positions(seed, tier, scale=1.0):
     for p in ps:
         if p not in seen:
             seen.add(p); out.append(p)
+    DIST.clear(); DIST.update(fen_distribution(out))
     return out
+
+DIST = {}
+def fen_distribution(fens):
+    """measured distribution of the generated positions (goes into the evidence)"""
+    d = {'positions': len(fens), 'pieces': {}, 'side': {'w': 0, 'b': 0}, 'castling_sets': {}, 'with_ep': 0, 'pawn_on_7th_or_2nd': 0, 'halfmove': {'0-49': 0, '50-99': 0, '100-127': 0, '128-4095': 0, '>=4096': 0}}
+    for f in fens:
+        w = f.split(' ')
+        n = sum(1 for c in w[0] if c.isalpha())
+        b = '%d-%d' % (n // 8 * 8, n // 8 * 8 + 7)
+        d['pieces'][b] = d['pieces'].get(b, 0) + 1
+        d['side'][w[1]] = d['side'].get(w[1], 0) + 1
+        d['castling_sets'][w[2]] = d['castling_sets'].get(w[2], 0) + 1
+        if w[3] != '-': d['with_ep'] += 1
+        rows = w[0].split('/')
+        if 'P' in rows[1] or 'p' in rows[6]: d['pawn_on_7th_or_2nd'] += 1
+        h = int(w[4]) if len(w) > 4 else 0
+        k = '0-49' if h < 50 else '50-99' if h < 100 else '100-127' if h < 128 else '128-4095' if h < 4096 else '>=4096'
+        d['halfmove'][k] += 1
+    return d
 
 def diff(res, family, cases, impl=None, model=None, nontrivial=None, known=None, proj=None, level='tie'):
     """implementation vs extracted model.  `proj` projects an observation onto what THIS property observes.
@@ -257,6 +277,24 @@ def c06(res, ctx):
             if r in f[2]:
                 nr = f[2].replace(r, '') or '-'
                 variants.append(' '.join(f[:2] + [nr] + f[3:]))
+        # e.p. file: two double-pushed pawns with free squares behind them give two legal e.p. states of one placement
+        rows = f[0].split('/')
+        def expand(r):
+            return ''.join('.' * int(c) if c.isdigit() else c for c in r)
+        grid = [expand(r) for r in rows]
+        if f[1] == 'b':
+            files = [i for i in range(8) if grid[4][i] == 'P' and grid[5][i] == '.' and grid[6][i] == '.']
+            eps = ['abcdefgh'[i] + '3' for i in files]
+        else:
+            files = [i for i in range(8) if grid[3][i] == 'p' and grid[2][i] == '.' and grid[1][i] == '.']
+            eps = ['abcdefgh'[i] + '6' for i in files]
+        base_ep = ' '.join(f[:3] + ['-'] + f[4:])
+        for e in eps[:3]:
+            variants_ep = ' '.join(f[:3] + [e] + f[4:])
+            sc.append(base_ep + '\t' + variants_ep)
+        for a in range(len(eps)):
+            for b2 in range(a + 1, len(eps)):
+                sc.append(' '.join(f[:3] + [eps[a]] + f[4:]) + '\t' + ' '.join(f[:3] + [eps[b2]] + f[4:]))
         for v in variants:
             sc.append(p + '\t' + v)
     snaps = V.run_impl('fen', [c.split('\t')[0] for c in sc])   # only to make sure they parse
@@ -700,6 +738,7 @@ def run_check(pid, tier, seed):
             res.known.append('class=%s witness=%s %s' % (x.get('class'), x.get('witness'), x.get('text')))
     rule = extra.pop('rule', '')
     extra['extraction_crosscheck_lines'] = res.vm_lines
+    if DIST: extra['input_distribution'] = dict(DIST)
     if tier == 'thorough':
         ok, report = V.coqchk(pid)
         extra['coqchk'] = {'ok': ok, 'report': report}
